@@ -17,17 +17,12 @@ package verifcheck
 // and restarting loses nothing further.
 
 import (
-	"bytes"
 	"encoding/binary"
 	"fmt"
-	"io"
 	"os"
 	"path/filepath"
-	"reflect"
-	"sort"
 	"strings"
 	"sync"
-	"syscall"
 	"testing"
 
 	"github.com/sanonone/kektordb/internal/verifkit"
@@ -45,344 +40,6 @@ type c02Image struct {
 	// have done at that instant); the log bytes beyond TornFrom were written by that one flush, so a crash during
 	// that write may leave any prefix of them.
 	TornFrom int64
-}
-
-func c02CopyFileSparse(src, dst string) error {
-	in, err := os.Open(src)
-	if err != nil {
-		return err
-	}
-	defer in.Close()
-	st, err := in.Stat()
-	if err != nil {
-		return err
-	}
-	out, err := os.OpenFile(dst, os.O_CREATE|os.O_WRONLY|os.O_TRUNC, 0o644)
-	if err != nil {
-		return err
-	}
-	defer out.Close()
-	size := st.Size()
-	if err := out.Truncate(size); err != nil {
-		return err
-	}
-	fd := int(in.Fd())
-	var off int64
-	buf := make([]byte, 1<<16)
-	for off < size {
-		dataOff, err := syscall.Seek(fd, off, 3) // SEEK_DATA
-		if err != nil {
-			break // ENXIO: no more data
-		}
-		holeOff, err := syscall.Seek(fd, dataOff, 4) // SEEK_HOLE
-		if err != nil {
-			holeOff = size
-		}
-		for p := dataOff; p < holeOff; {
-			n := int64(len(buf))
-			if holeOff-p < n {
-				n = holeOff - p
-			}
-			m, rerr := in.ReadAt(buf[:n], p)
-			if m > 0 {
-				if _, werr := out.WriteAt(buf[:m], p); werr != nil {
-					return werr
-				}
-			}
-			p += int64(m)
-			if rerr != nil {
-				if rerr == io.EOF {
-					break
-				}
-				return rerr
-			}
-			if m == 0 {
-				break
-			}
-		}
-		off = holeOff
-	}
-	return nil
-}
-
-// c02CopyDir copies a data directory as a crash would leave it. Files that vanish while copying
-// (a concurrent best-effort directory removal) are skipped: any partial removal is a legitimate crash state.
-func c02CopyDir(src, dst string) error {
-	return filepath.Walk(src, func(p string, info os.FileInfo, err error) error {
-		if err != nil {
-			if os.IsNotExist(err) {
-				return nil
-			}
-			return err
-		}
-		rel, _ := filepath.Rel(src, p)
-		target := filepath.Join(dst, rel)
-		if info.IsDir() {
-			return os.MkdirAll(target, 0o755)
-		}
-		if !info.Mode().IsRegular() {
-			return nil
-		}
-		if err := c02CopyFileSparse(p, target); err != nil && !os.IsNotExist(err) {
-			return err
-		}
-		return nil
-	})
-}
-
-func (m *Model) clone() *Model {
-	c := NewModel()
-	for k, v := range m.KV {
-		c.KV[k] = append([]byte{}, v...)
-	}
-	for n, mi := range m.Idx {
-		ci := &mIdx{Dim: mi.Dim, Cfg: mi.Cfg, Prec: mi.Prec, Live: map[string]*mVec{}, Maint: mi.Maint, AutoLink: mi.AutoLink}
-		for id, v := range mi.Live {
-			ci.Live[id] = &mVec{Base: append([]float32(nil), v.Base...), Meta: normMeta(v.Meta)}
-		}
-		c.Idx[n] = ci
-	}
-	for _, e := range m.Edges {
-		ce := *e
-		c.Edges = append(c.Edges, &ce)
-	}
-	c.Times = append([]int64(nil), m.Times...)
-	return c
-}
-
-// opIsDurabilityPoint: after this op completed successfully, everything acknowledged before it is on disk.
-func opIsDurabilityPoint(op Op, err error) bool {
-	if err != nil {
-		return false
-	}
-	switch op.K {
-	case KFlush, KSnapshot, KRewrite, KRestart, KImport, KCompress, KKVDel, KConfig:
-		return true
-	}
-	return false
-}
-
-type c02Edge struct {
-	Src, Rel, Tgt string
-	C             int64
-}
-
-// c02Explained checks the per-item rule of the property against the model states lo..hi (inclusive).
-func c02Explained(d *Dump, states []*Model, lo, hi int) string {
-	rng := states[lo : hi+1]
-	// ---- KV
-	for k, v := range d.KV {
-		ok := false
-		for _, s := range rng {
-			if mv, has := s.KV[k]; has && bytes.Equal(mv, []byte(v)) {
-				ok = true
-				break
-			}
-		}
-		if !ok {
-			return fmt.Sprintf("KV key %q = %q: the key never held that value between the durable floor and the crash (states %d..%d)", k, v, lo, hi)
-		}
-	}
-	kvKeys := map[string]bool{}
-	for _, s := range rng {
-		for k := range s.KV {
-			kvKeys[k] = true
-		}
-	}
-	for k := range kvKeys {
-		if _, has := d.KV[k]; has {
-			continue
-		}
-		absentSomewhere := false
-		for _, s := range rng {
-			if _, has := s.KV[k]; !has {
-				absentSomewhere = true
-				break
-			}
-		}
-		if !absentSomewhere {
-			return fmt.Sprintf("KV key %q is missing although it existed in every state since its last durable write (states %d..%d)", k, lo, hi)
-		}
-	}
-	// ---- indexes
-	names := map[string]bool{}
-	for _, s := range rng {
-		for n := range s.Idx {
-			names[n] = true
-		}
-	}
-	for n := range d.Idx {
-		if !names[n] {
-			return fmt.Sprintf("index %q exists after recovery but in no state between the durable floor and the crash", n)
-		}
-	}
-	for n := range names {
-		di := d.Idx[n]
-		if di == nil {
-			absentSomewhere := false
-			for _, s := range rng {
-				if s.Idx[n] == nil {
-					absentSomewhere = true
-					break
-				}
-			}
-			if !absentSomewhere {
-				return fmt.Sprintf("index %q is missing after recovery although it existed in every state since the durable floor (states %d..%d)", n, lo, hi)
-			}
-			continue
-		}
-		// configuration must be one the index had
-		cfgOK := false
-		var why string
-		for _, s := range rng {
-			mi := s.Idx[n]
-			if mi == nil {
-				continue
-			}
-			one := &Model{KV: map[string][]byte{}, Idx: map[string]*mIdx{n: {Dim: mi.Dim, Cfg: mi.Cfg, Prec: mi.Prec, Live: map[string]*mVec{}, Maint: mi.Maint, AutoLink: mi.AutoLink}}}
-			probe := &Dump{KV: map[string]string{}, Idx: map[string]*DIdx{n: {Metric: di.Metric, Prec: di.Prec, M: di.M, EfC: di.EfC, Lang: di.Lang, Maint: di.Maint, AutoLinks: di.AutoLinks, Memory: di.Memory, Vecs: map[string]DVec{}}}}
-			if w := CheckAgainstModel(probe, one); w == "" {
-				cfgOK = true
-				break
-			} else {
-				why = w
-			}
-		}
-		if !cfgOK {
-			return fmt.Sprintf("index %q was recovered with a configuration it never had between the durable floor and the crash: %s", n, why)
-		}
-		// vectors
-		ids := map[string]bool{}
-		for _, s := range rng {
-			if mi := s.Idx[n]; mi != nil {
-				for id := range mi.Live {
-					ids[id] = true
-				}
-			}
-		}
-		for id, dv := range di.Vecs {
-			ok := false
-			var last string
-			for _, s := range rng {
-				mi := s.Idx[n]
-				if mi == nil || mi.Live[id] == nil {
-					continue
-				}
-				mv := mi.Live[id]
-				if w := vecMatches(di.Metric, di.Prec, di.AbsMax, mv.Base, dv.Vec); w != "" {
-					last = "vector " + w
-					continue
-				}
-				if !reflect.DeepEqual(dv.Meta, normMeta(mv.Meta)) {
-					last = fmt.Sprintf("metadata %v vs %v", dv.Meta, normMeta(mv.Meta))
-					continue
-				}
-				ok = true
-				break
-			}
-			if !ok {
-				if !ids[id] {
-					return fmt.Sprintf("index %q id %q is readable after recovery but was never written between the durable floor and the crash", n, id)
-				}
-				return fmt.Sprintf("index %q id %q recovered as %v / %v, which is not a value it held between the durable floor and the crash (states %d..%d; closest mismatch: %s)", n, id, dv.Vec, dv.Meta, lo, hi, last)
-			}
-		}
-		for id := range ids {
-			if _, has := di.Vecs[id]; has {
-				continue
-			}
-			absentSomewhere := false
-			for _, s := range rng {
-				if mi := s.Idx[n]; mi == nil || mi.Live[id] == nil {
-					absentSomewhere = true
-					break
-				}
-			}
-			if !absentSomewhere {
-				return fmt.Sprintf("index %q id %q is missing after recovery although it was live in every state since the durable floor (states %d..%d)", n, id, lo, hi)
-			}
-		}
-		if di.Count != len(di.Vecs) || len(di.IDs) != len(di.Vecs) {
-			return fmt.Sprintf("index %q after recovery: count %d, cursor lists %d ids, %d ids readable", n, di.Count, len(di.IDs), len(di.Vecs))
-		}
-	}
-	// ---- edges: identity (src,rel,tgt,created); value = (weight, props, deleted?) ; the deletion time of an
-	// edge removed by the recovery's own cascade repair is the recovery time, so only "deleted or not" is compared.
-	type ev struct {
-		W     float32
-		Props string
-		Del   bool
-	}
-	have := map[c02Edge][]ev{}
-	for _, s := range rng {
-		for _, e := range s.Edges {
-			k := c02Edge{e.Src, e.Rel, e.Tgt, e.C}
-			have[k] = append(have[k], ev{e.W, e.Props, e.D != 0})
-		}
-	}
-	seen := map[c02Edge]bool{}
-	for _, e := range d.Edges {
-		k := c02Edge{e.Src, e.Rel, e.Tgt, e.C}
-		if seen[k] {
-			return fmt.Sprintf("edge version %+v appears twice after recovery", k)
-		}
-		seen[k] = true
-		ok := false
-		for _, v := range have[k] {
-			if v.W == e.W && v.Props == e.Props && v.Del == (e.D != 0) {
-				ok = true
-				break
-			}
-		}
-		if !ok {
-			return fmt.Sprintf("edge version %+v recovered as {w=%v props=%s deleted=%v}, not a value it held between the durable floor and the crash (held: %+v)", k, e.W, e.Props, e.D != 0, have[k])
-		}
-	}
-	for k := range have {
-		if seen[k] {
-			continue
-		}
-		absentSomewhere := false
-		for _, s := range rng {
-			found := false
-			for _, e := range s.Edges {
-				if (c02Edge{e.Src, e.Rel, e.Tgt, e.C}) == k {
-					found = true
-					break
-				}
-			}
-			if !found {
-				absentSomewhere = true
-				break
-			}
-		}
-		if !absentSomewhere {
-			return fmt.Sprintf("edge version %+v is missing after recovery although it existed in every state since the durable floor", k)
-		}
-	}
-	return ""
-}
-
-func c02Probe(states []*Model) map[string][]string {
-	p := map[string][]string{}
-	for _, n := range uIndexes {
-		set := map[string]bool{}
-		for _, id := range uIDs {
-			set[id] = true
-		}
-		for _, s := range states {
-			if mi := s.Idx[n]; mi != nil {
-				for id := range mi.Live {
-					set[id] = true
-				}
-			}
-		}
-		for id := range set {
-			p[n] = append(p[n], id)
-		}
-		sort.Strings(p[n])
-	}
-	return p
 }
 
 // frame boundaries of a log file (offsets where a frame starts), and the file length
@@ -793,17 +450,3 @@ func TestVerif_C02_crash(t *testing.T) {
 }
 
 var _ = rapid.Bool
-
-// c02FlattenDelTimes returns a copy of d in which every non-zero edge deletion time is 1: two separate
-// recoveries of an interrupted delete cascade stamp the repaired edges with their own recovery time.
-func c02FlattenDelTimes(d *Dump) *Dump {
-	c := *d
-	c.Edges = append([]DEdge(nil), d.Edges...)
-	for i := range c.Edges {
-		if c.Edges[i].D != 0 {
-			c.Edges[i].D = 1
-		}
-	}
-	sort.Slice(c.Edges, func(i, j int) bool { return edgeLess(c.Edges[i], c.Edges[j]) })
-	return &c
-}
